@@ -9,7 +9,7 @@ tables"), except the `reuse` op, which is also compared with the Lean model.
 import copy
 import os
 
-SUBS = ["copy", "views", "io", "mixin", "defaults", "names", "spell", "astype"]
+SUBS = ["copy", "views", "io", "mixin", "defaults", "names", "spell", "astype", "badnames", "placeholder", "refusals"]
 
 
 # ---------------------------------------------------------------- generators
@@ -71,8 +71,33 @@ def reuse_case(rng, c06):
 def api_case(rng, c06, sub=None):
     sub = sub or rng.choice(SUBS)
     table = c06.make_table(rng, multi_ok=False)
-    return {"kind": "api/" + sub, "spec": c06.enc_blocks(c06.table_to_blocks(table)), "seed": rng.randrange(10**9),
+    case = {"kind": "api/" + sub, "spec": c06.enc_blocks(c06.table_to_blocks(table)), "seed": rng.randrange(10**9),
             "flav": rng.choice(["t", "b"])}
+    if sub == "badnames":
+        # names outside NameOk: the text writer must refuse '.'/whitespace in category and column names and line
+        # breaks in block names, and keep every other name; also compared with the model
+        level, nm = rng.choice(["block", "category", "column"]), rng.choice(ODD_NAMES)
+        case["level"], case["name"] = level, nm
+        spec = bad_spec(level, nm)
+        if case["flav"] == "t":
+            case["ops"] = [f"serfile {c06.enc_blocks(spec)}", f"rt {c06.enc_blocks(spec)}"]
+    return case
+
+
+ODD_NAMES = ["a b", "a\tb", "a.b", ".", "a ", " a", "a\xa0b", "x\ny", "x\n", "x\ry", "x\x85", "a'b", 'a"b', "'a", "#a", "a#b", ";a", "$a",
+             "_a", "a[1]", "\xe9t\xe9", "data_", "loop_", "save_x", "\u03bb", "a\u2003b", "a\u2028b", "a\x1fb"]
+
+
+def bad_spec(level, nm):
+    return [(nm if level == "block" else "b",
+             [(nm if level == "category" else "c", [(nm if level == "column" else "k", ["1", "two words"]), ("j", ["x", "y"])])])]
+
+
+def name_refused(level, nm):
+    """what the text writer must do with this name (the complement of NameOk, clause by clause)"""
+    if level == "block":
+        return any(c in "\n\r\x0b\x0c\x1c\x1d\x1e\x85\u2028\u2029" for c in nm)
+    return "." in nm or any(c.isspace() for c in nm)
 
 
 # ---------------------------------------------------------------- building / reading real objects
@@ -241,8 +266,82 @@ def api_oracle(case, c06):
     blocks = c06.dec_blocks(case["spec"])
     fl = "text" if flav == "t" else "binary"
     fn = globals()["_api_" + sub]
-    msg = fn(rng, flav, blocks, c06)
+    msg = fn(rng, flav, blocks, c06) if sub != "badnames" else _api_badnames(case, flav)
+    if isinstance(msg, tuple):
+        return [msg]
     return [(f"C06/api/{fl}/{sub}", msg)] if msg else []
+
+
+def _api_badnames(case, flav):
+    level, nm = case["level"], case["name"]
+    spec = bad_spec(level, nm)
+    try:
+        back = content(flav, load(flav, dump(flav, build(flav, spec))))
+    except Exception as e:  # noqa: BLE001
+        back = type(e).__name__
+    if flav == "t" and name_refused(level, nm):
+        if back != "SerializationError":
+            return f"{level} name {nm!r} cannot be represented in CIF text: expected SerializationError, got {back!r}"
+        return None
+    if back != plain(spec):
+        return f"{level} name {nm!r}: written and read back as {back!r}"
+    return None
+
+
+def _api_placeholder(rng, flav, blocks, c06):
+    """a PRESENT value that is the string '.' or '?' (explicit all-PRESENT mask)"""
+    import numpy as np
+    import biotite.structure.io.pdbx as pdbx
+    vals = [rng.choice([".", "?"]), "x", rng.choice([".", "?", "y"])]
+    mask = np.zeros(3, dtype=np.uint8)
+    if flav == "t":
+        col = pdbx.CIFColumn(pdbx.CIFData(vals), mask)
+        back = pdbx.CIFCategory.deserialize(pdbx.CIFCategory({"k": col}, name="c").serialize())["k"]
+    else:
+        col = pdbx.BinaryCIFColumn(np.array(vals), mask)
+        f = pdbx.BinaryCIFFile({"b": pdbx.BinaryCIFBlock({"c": pdbx.BinaryCIFCategory({"k": col})})})
+        back = load("b", dump("b", f))["b"]["c"]["k"]
+    got_vals = [str(x) for x in (back.as_array() if flav == "t" else back.as_array(str))]
+    got_mask = None if back.mask is None else [int(x) for x in back.mask.array]
+    if got_vals != vals:
+        return f"PRESENT values {vals} read back as {got_vals}"
+    if got_mask is not None and any(got_mask):
+        fl = "text" if flav == "t" else "binary"
+        return (f"C06/mask/{fl}/present-placeholder",
+                f"PRESENT values {vals} (explicit all-PRESENT mask) are read back with mask {got_mask}")
+    return None
+
+
+def _api_refusals(rng, flav, blocks, c06):
+    """input the constructors and setters must refuse, with the documented exception class"""
+    import numpy as np
+    import biotite.structure.io.pdbx as pdbx
+    t = flav == "t"
+    Data, Col = (pdbx.CIFData, pdbx.CIFColumn) if t else (pdbx.BinaryCIFData, pdbx.BinaryCIFColumn)
+    Cat, Blk, Fil = (pdbx.CIFCategory, pdbx.CIFBlock, pdbx.CIFFile) if t else (pdbx.BinaryCIFCategory, pdbx.BinaryCIFBlock, pdbx.BinaryCIFFile)
+    checks = [("object array as data", lambda: Data(np.array(["a", None], dtype=object)), ("ValueError",)),
+              ("mask of another length", lambda: Col(["a", "b"] if t else np.array(["a", "b"]), np.array([0], dtype=np.uint8)), ("IndexError",)),
+              ("a category as element of a file", lambda: Fil().__setitem__("x", Cat()), ("TypeError", "DeserializationError")),
+              ("a block as element of a block", lambda: Blk().__setitem__("x", Blk()), ("TypeError",)),
+              ("deleting a missing key", lambda: Blk().__delitem__("zz"), ("KeyError",)),
+              ("looking up a missing key", lambda: Fil()["zz"], ("KeyError",))]
+    if t:
+        checks += [("empty list as column", lambda: Col([]), ("ValueError",)),
+                   ("empty array as data", lambda: Data(np.array([], dtype=str)), ("ValueError",)),
+                   ("empty column in a category", lambda: Cat({"k": []}), ("ValueError",)),
+                   ("a string as element of a block", lambda: Blk().__setitem__("x", "_c.k 1\n"), ("TypeError",)),
+                   ("category without a name", lambda: Cat({"k": ["1"]}).serialize(), ("SerializationError",)),
+                   ("category without columns", lambda: Cat({}, name="c").serialize(), ("ValueError",))]
+    else:
+        checks += [("category without columns", lambda: Cat().serialize(), ("SerializationError",))]
+    for label, fn, allowed in checks:
+        try:
+            fn()
+            return f"{label}: accepted"
+        except Exception as e:  # noqa: BLE001
+            if type(e).__name__ not in allowed:
+                return f"{label}: raised {type(e).__name__} instead of {allowed[0]}"
+    return None
 
 
 def _api_copy(rng, flav, blocks, c06):
@@ -485,6 +584,12 @@ def _api_spell(rng, flav, blocks, c06):
     masks = [("list", list(mask)), ("tuple", tuple(mask)), ("MaskValue", [MaskValue(m) for m in mask]),
              ("uint8", np.array(mask, dtype=np.uint8)), ("int64", np.array(mask, dtype=np.int64)),
              ("strided", np.array([x for m in mask for x in (m, 0)], dtype=np.uint8)[::2]), ("read-only", mro)]
+    # a single item instead of an array
+    for item in ("text", 5, np.int16(7), np.str_("s")):
+        c1 = pdbx.CIFColumn(item) if flav == "t" else pdbx.BinaryCIFColumn(item)
+        got1 = [str(x) for x in (c1.as_array() if flav == "t" else c1.as_array(str))]
+        if got1 != [str(item)]:
+            return f"a single item {item!r} as column gave {got1}"
     for sname, data in _spellings(rng, vs):
         for mname, m in [("none", None)] + masks[: (len(masks) if sname == "list" else 2)]:
             exp = vs if m is None else shown
